@@ -318,6 +318,7 @@ def gen_psr_walk(rng):
     modes = G.legal_modes(cfg)
     mode = rng.choice(modes)
     devices = G.std_devices(high=False)
+    devices.append({'kind': 'ram', 'begin': 0xFFFFF000, 'end': 0x100000000})          # the last page of the address space (return frames may end exactly at 2^32)
     cpsr = G.random_cpsr(rng, cfg, mode=mode, thumb=thumb, e=None)
     scr = (rng.getrandbits(6) & 0x31) if sec else 0
     if mode == 'hyp':
@@ -414,6 +415,7 @@ def run_psr_walk(case):
         pre_sp = {m: getattr(r, 'spsr_' + m) for m in M.SPSR_MODES}
         pre_regs = M.regs_dict(arm)
         expect_cpsr, expect_sp, unpred, named = pre_cpsr, dict(pre_sp), False, set()
+        wb_expect = None
         label = k
         if k == 'set_mode':
             m = M.MODES[op['setmode']]
@@ -526,11 +528,14 @@ def run_psr_walk(case):
                 # RFE: PC and CPSR come from two words in memory (read with the current data endianness)
                 rn = op['rn']
                 addr = G.DATA + 0x100 + 8 * (op['imm12'] & 0x1F)
+                if op.get('dp', 0) & 0x300 == 0x300:
+                    addr = 0xFFFFFFF8                             # a frame that ends exactly at the end of the address space: nothing wraps, fully defined
                 bo = 'big' if (pre_cpsr >> 9) & 1 else 'little'
                 M.poke(arm, addr, lr.to_bytes(4, bo) + v.to_bytes(4, bo))
                 r.set(rn, addr)
                 named.add(rn)
                 w = T.rfe(rn, db=0, w=op['t1']) if thumb else A.rfe(rn, p=0, u=1, w=op['t1'])
+                wb_expect = (rn, (addr + 8) & 0xFFFFFFFF if op['t1'] else addr)
             else:
                 # LDM rn, {pc}^: the PC comes from memory, the CPSR from the SPSR
                 setattr(r, 'spsr_' + SP[cur], v)
@@ -538,10 +543,13 @@ def run_psr_walk(case):
                 expect_sp[SP[cur]] = v
                 rn = op['rn']
                 addr = G.DATA + 0x100 + 8 * (op['imm12'] & 0x1F)
+                if op.get('dp', 0) & 0x300 == 0x300:
+                    addr = 0xFFFFFFFC                             # the last word of the address space
                 M.poke(arm, addr, lr.to_bytes(4, 'big' if (pre_cpsr >> 9) & 1 else 'little'))
                 r.set(rn, addr)
                 named.add(rn)
                 w = A.ldstm(1, rn, 0x8000, p=0, u=1, w=op['t1'], s=1)
+                wb_expect = (rn, (addr + 4) & 0xFFFFFFFF if op['t1'] else addr)
             pre_regs = M.regs_dict(arm)
             expect_cpsr, unpred = CW.cpsr_write_by_instr(pre_cpsr, v, 0xF, True, sec, virt, scr, nmfi, rfr)
             ret_target = (lr - imm) & 0xFFFFFFFF
@@ -601,6 +609,13 @@ def run_psr_walk(case):
             if r.pc_store_value() != want_pc:
                 b.violate('psr.model', site, 'return_address', 'exception return from mode %#x: PC %#x, expected %#x (LR %#x, restored CPSR %#010x)' % (
                     cur, r.pc_store_value(), want_pc, lr, post_cpsr))
+                break
+        if k == 'ret' and not unpred and wb_expect is not None:
+            # the base register of RFE / LDM ^ in the bank of the mode the instruction ran in: written back (modulo 2^32) or left alone
+            got_b = r.get_rmode(wb_expect[0], cur)
+            if got_b != wb_expect[1] and BK.phys(wb_expect[0], cur) != 'PC':
+                b.violate('psr.model', site, 'return_base_writeback', 'exception return (%s) from mode %#x: base r%d is %#x afterwards, expected %#x' % (
+                    label, cur, wb_expect[0], got_b, wb_expect[1]))
                 break
         # ---- MRS result and untouched registers
         if k in ('mrs', 'mrs_spsr'):
